@@ -122,6 +122,28 @@ def run(ctx):
                 sw = d(s2, s1, **kwx)
                 if not dtwmon.engines_agree(sw, base, ctx):
                     bad("symmetry", settings=dict(dtwmon.settings_key(kw)), forward=base, swapped=sw)
+                # symmetry under early abandoning with an asymmetric relaxation: series 1 starts with outliers that
+                # the begin relaxation of series 1 (only) may skip; a bound (pruning or max_dist above the distance)
+                # must not break the law
+                if not nd and r >= 3 and c >= 2 and not long_ and rng.random() < 0.35:
+                    pb_ = rng.randint(1, r - 1)
+                    a_ = np.array(s1, dtype=float)
+                    a_[:pb_] += rng.choice([6.0, 10.0, -8.0])
+                    kwb = {k_: v_ for k_, v_ in kw.items() if k_ not in ("psi", "max_step", "max_length_diff")}
+                    kwb["psi"] = (pb_, rng.choice([0, 0, 1]) if r > 1 else 0, 0, rng.choice([0, 0, 1]) if c > 1 else 0)
+                    free_ = d(a_, s2, **kwb)
+                    if free_ not in (0.0, inf):
+                        if rng.random() < 0.5:
+                            kwb["use_pruning"] = True
+                        else:
+                            kwb["max_dist"] = free_ * rng.choice([1.05, 1.5, 3.0])
+                        pq_ = kwb["psi"]
+                        fw_ = d(a_, s2, **kwb)
+                        sw_ = d(s2, a_, **dict(kwb, psi=(pq_[2], pq_[3], pq_[0], pq_[1])))
+                        ctx.count("law:symmetry_under_bounds_with_asymmetric_psi")
+                        if not (dtwmon.engines_agree(fw_, sw_, ctx) and dtwmon.engines_agree(fw_, free_, ctx)):
+                            bad("symmetry-under-bounds", settings=dict(dtwmon.settings_key(kwb)), forward=fw_, swapped=sw_,
+                                unbounded=free_, s1_used=a_.tolist())
                 # window
                 w = kw.get("window")
                 if w is not None:
